@@ -33,7 +33,18 @@ type kase struct {
 	Groups bool `json:"groups,omitempty"`
 }
 
-var formats = []string{"fasta", "fastq", "bed3", "bed4", "bed5", "bed6", "bed12", "gff"}
+var formats = []string{"fasta", "fastq", "fastq-solexa", "fastq-illumina1_3", "bed3", "bed4", "bed5", "bed6", "bed12", "gff"}
+
+// fastqEncoding: the quality encoding of the template a FASTQ format name stands for.
+func fastqEncoding(format string) alphabet.Encoding {
+	switch format {
+	case "fastq-solexa":
+		return alphabet.Solexa
+	case "fastq-illumina1_3":
+		return alphabet.Illumina1_3
+	}
+	return alphabet.Sanger
+}
 
 func isNil(v interface{}) bool {
 	if v == nil {
@@ -58,8 +69,8 @@ func readAll(k kase) (calls int, records int, err error, bad string) {
 	case k.Format == "fasta":
 		r := fasta.NewReader(bytes.NewReader(k.Data), linear.NewSeq("", nil, alphabet.DNA))
 		read = func() (interface{}, error) { s, e := r.Read(); return s, e }
-	case k.Format == "fastq":
-		r := fastq.NewReader(bytes.NewReader(k.Data), linear.NewQSeq("", nil, alphabet.DNA, alphabet.Sanger))
+	case strings.HasPrefix(k.Format, "fastq"):
+		r := fastq.NewReader(bytes.NewReader(k.Data), linear.NewQSeq("", nil, alphabet.DNA, fastqEncoding(k.Format)))
 		read = func() (interface{}, error) { s, e := r.Read(); return s, e }
 	case strings.HasPrefix(k.Format, "bed"):
 		var n int
@@ -253,7 +264,8 @@ var gffTokens = []token{
 
 var fastaTokens = []token{{">id", ""}, {">id desc more", ""}, {">", ""}, {"acgt", ""}, {"ac gt", ""}, {"", ""}, {"  \t", ""}, {">>x", ""}, {"@x", ""}, {"+", ""}}
 
-var fastqTokens = []token{{"@id", ""}, {"@id d", ""}, {"acgt", ""}, {"ac", ""}, {"+", ""}, {"+id", ""}, {"@@@@", ""}, {"++", ""}, {"", ""}, {" ", ""}, {"!!!!", ""}, {"garbage here", ""}}
+var fastqTokens = []token{{"@id", ""}, {"@id d", ""}, {"acgt", ""}, {"ac", ""}, {"+", ""}, {"+id", ""}, {"@@@@", ""}, {"++", ""}, {"", ""}, {" ", ""}, {"!!!!", ""}, {"garbage here", ""},
+	{"\x00\x7f\x80\xbf", ""}, {"\xc0\xff", ""}} // quality bytes outside every printable range
 
 // expect computes whether a token sequence must end in a non-EOF error.
 func expect(format string, toks []token) (bool, string) {
@@ -293,7 +305,7 @@ func expect(format string, toks []token) (bool, string) {
 			}
 			break
 		}
-	case format == "fastq":
+	case strings.HasPrefix(format, "fastq"):
 		// (valid record)* then one record whose quality length differs
 		if len(toks)%4 != 0 || len(toks) == 0 {
 			return false, ""
@@ -315,7 +327,7 @@ func tokensFor(format string) []token {
 	switch format {
 	case "fasta":
 		return fastaTokens
-	case "fastq":
+	case "fastq", "fastq-solexa", "fastq-illumina1_3":
 		return fastqTokens
 	case "gff":
 		return gffTokens
@@ -330,6 +342,8 @@ func tokensFor(format string) []token {
 var seeds = map[string][]string{
 	"fasta": {">s1 first\nacgtacgt\nacgt\n>s2\nttga\n"},
 	"fastq": {"@r1 d\nacgt\n+\n!!!!\n@r2\nac\n+r2\n@+\n"},
+	"fastq-solexa":      {"@r1 d\nacgt\n+\n;@h~\n@r2\nac\n+r2\n\xc0\xff\n"},
+	"fastq-illumina1_3": {"@r1 d\nacgt\n+\n@Bh~\n@r2\nac\n+r2\n\x00\xff\n"},
 	"bed3":  {"chr1\t10\t20\nchr2\t0\t5\n"},
 	"bed4":  {"chr1\t10\t20\tn1\nchr2\t0\t5\tn2\n"},
 	"bed5":  {"chr1\t10\t20\tn1\t3\nchr2\t0\t5\tn2\t0\n"},
